@@ -155,6 +155,10 @@ func TestE2EReplay(t *testing.T) {
 	var res e2eOut
 	var mu sync.Mutex
 	var idx int64 = -1
+	var deadline time.Time
+	if d, err := time.ParseDuration(os.Getenv("E2E_BUDGET")); err == nil && d > 0 {
+		deadline = time.Now().Add(d)
+	}
 	var wg sync.WaitGroup
 	for wk := 0; wk < runtime.NumCPU(); wk++ {
 		wg.Add(1)
@@ -164,6 +168,15 @@ func TestE2EReplay(t *testing.T) {
 				i := int(atomic.AddInt64(&idx, 1))
 				if i >= len(items) {
 					return
+				}
+				mu.Lock()
+				stop := len(res.Violations) >= 25 || (!deadline.IsZero() && time.Now().After(deadline))
+				if stop {
+					res.NotRun++
+				}
+				mu.Unlock()
+				if stop {
+					continue
 				}
 				rule, what, trace, matched, frames, diverge, err := e2eRun(t, items[i], fmt.Sprintf("%d.%d", os.Getpid(), i))
 				mu.Lock()
